@@ -9,6 +9,7 @@ import (
 	"log"
 	"sort"
 	"sync"
+	"sync/atomic"
 	"testing"
 	"testing/synctest"
 	"time"
@@ -50,6 +51,10 @@ type c12Step struct {
 	Pls  []kit.Payload `json:"pls,omitempty"`
 	N    int           `json:"n,omitempty"`
 	Recs []enqRec      `json:"recs,omitempty"`
+	// par: a second flow (Kind2, Pls2, other work ids) runs a whole Process call while the first one is held inside
+	// its first sink call: all flows share one runner, nothing of one call may reach the other
+	Kind2 int           `json:"kind2,omitempty"`
+	Pls2  []kit.Payload `json:"pls2,omitempty"`
 }
 
 type stepObs struct {
@@ -96,6 +101,16 @@ type sinkRec struct {
 	props  []common.CoordinatedBlockProposal
 	prT    []int64
 	ufail  map[int]bool // SetUpkeepState refuses these work ids
+	slow   atomic.Int64 // virtual ns every sink call takes (par steps); 0 = immediate
+	inSink atomic.Int32 // sink calls begun so far
+}
+
+// enter is called at the start of every sink call: a par step holds the first flow here while the second one runs
+func (s *sinkRec) enter() {
+	s.inSink.Add(1)
+	if d := s.slow.Load(); d > 0 {
+		time.Sleep(time.Duration(d))
+	}
 }
 
 func intSet(xs []int) map[int]bool {
@@ -126,6 +141,7 @@ func (e *errSpy) Write(p []byte) (int, error) {
 type recStore struct{ s *sinkRec }
 
 func (r recStore) Add(rs ...common.CheckResult) {
+	r.s.enter()
 	r.s.mu.Lock()
 	defer r.s.mu.Unlock()
 	for _, x := range rs {
@@ -133,12 +149,13 @@ func (r recStore) Add(rs ...common.CheckResult) {
 		r.s.stT = append(r.s.stT, r.s.rec.Now())
 	}
 }
-func (r recStore) Remove(...string)                       {}
+func (r recStore) Remove(...string)                    {}
 func (r recStore) View() ([]common.CheckResult, error) { return nil, nil }
 
 type recUpdater struct{ s *sinkRec }
 
 func (r recUpdater) SetUpkeepState(_ context.Context, x common.CheckResult, st common.UpkeepState) error {
+	r.s.enter()
 	r.s.mu.Lock()
 	defer r.s.mu.Unlock()
 	if st != common.Ineligible {
@@ -154,9 +171,10 @@ func (r recUpdater) SetUpkeepState(_ context.Context, x common.CheckResult, st c
 
 type recMeta struct{ s *sinkRec }
 
-func (r recMeta) SetBlockHistory(common.BlockHistory) {}
+func (r recMeta) SetBlockHistory(common.BlockHistory)  {}
 func (r recMeta) GetBlockHistory() common.BlockHistory { return nil }
 func (r recMeta) AddProposals(ps ...common.CoordinatedBlockProposal) {
+	r.s.enter()
 	r.s.mu.Lock()
 	defer r.s.mu.Unlock()
 	for _, p := range ps {
@@ -325,6 +343,7 @@ func sleepUntil(rec *kit.Rec, at int64) {
 func setLat(pipe *kit.Pipe, c *c12Case) {
 	for _, st := range c.Steps {
 		pipe.SetLat(st.Pls)
+		pipe.SetLat(st.Pls2)
 	}
 }
 
@@ -341,6 +360,10 @@ func withDistinctInstants(t *testing.T, c *c12Case, run func(*testing.T, *c12Cas
 		for i := range c.Steps {
 			for j := range c.Steps[i].Pls {
 				p := &c.Steps[i].Pls[j]
+				p.Lat += int64(1+try)*7919 + int64(p.Tag)*104729%1000003
+			}
+			for j := range c.Steps[i].Pls2 {
+				p := &c.Steps[i].Pls2[j]
 				p.Lat += int64(1+try)*7919 + int64(p.Tag)*104729%1000003
 			}
 		}
@@ -375,12 +398,23 @@ func runObserver(t *testing.T, c *c12Case) bool {
 			observers[k] = ocr2keepersv3.NewRunnableObserver(
 				[]ocr2keepersv3.PreProcessor[common.UpkeepPayload]{drop}, postFor(k, s, q, lg), rr, flows.ObservationProcessLimit, lg)
 		}
+		var processOwn func(call, kind int, ups []common.UpkeepPayload, own, ownW map[int]bool) stepObs
 		process := func(call, kind int, ups []common.UpkeepPayload) {
+			c.Obs = append(c.Obs, processOwn(call, kind, ups, nil, nil))
+		}
+		// own: the tags (= work ids here) of this call's payloads when another call runs at the same time; what the sinks
+		// and the runner recorded is then attributed by tag
+		processOwn = func(call, kind int, ups []common.UpkeepPayload, own, ownW map[int]bool) stepObs {
 			o := stepObs{What: "proc", Kind: kind, T: rec.Now()}
 			s.mu.Lock()
 			ns, ni, np := len(s.staged), len(s.inelig), len(s.props)
 			s.mu.Unlock()
-			ne, nc := len(q.enq), len(rr.calls)
+			q.mu.Lock()
+			ne := len(q.enq)
+			q.mu.Unlock()
+			rr.mu.Lock()
+			nc := len(rr.calls)
+			rr.mu.Unlock()
 			var perr error
 			func() {
 				defer func() {
@@ -390,32 +424,92 @@ func runObserver(t *testing.T, c *c12Case) bool {
 				}()
 				perr = observers[kind].Process(kit.WithCall(ctx, call), staticTick{ups})
 			}()
-			if len(rr.calls) > nc {
-				rc := rr.calls[len(rr.calls)-1]
+			mine := func(tag int) bool { return own == nil || own[tag] }
+			rr.mu.Lock()
+			for _, rc := range rr.calls[nc:] {
+				if len(rc.args) > 0 && !mine(kit.ReadPayload(rc.args[0]).Tag) {
+					continue
+				}
 				o.Pls = readPls(rc.args)
 				o.Results = kit.ReadResults(rc.res)
 				if rc.err != nil {
 					o.Err = 1
 				}
 			}
+			rr.mu.Unlock()
 			if o.Err == 0 && perr != nil {
 				o.Err = 2
 			}
 			o.Done = doneOf(rec.InvsOf(call))
-			o.Staged = kit.ReadResults(s.staged[ns:])
-			o.Inelig = kit.ReadResults(s.inelig[ni:])
-			o.Props = readProps(s.props[np:])
-			o.Enq = readEnq(q.enq[ne:])
-			if len(q.enq) > ne {
-				o.TQ = q.enq[ne].t
+			s.mu.Lock()
+			for _, r := range kit.ReadResults(s.staged[ns:]) {
+				if mine(r.Tag) {
+					o.Staged = append(o.Staged, r)
+				}
 			}
-			c.Obs = append(c.Obs, o)
+			for _, r := range kit.ReadResults(s.inelig[ni:]) {
+				if mine(r.Tag) {
+					o.Inelig = append(o.Inelig, r)
+				}
+			}
+			for _, p := range readProps(s.props[np:]) {
+				if own == nil || ownW[p[0]] {
+					o.Props = append(o.Props, p)
+				}
+			}
+			s.mu.Unlock()
+			q.mu.Lock()
+			for _, e := range q.enq[ne:] {
+				if mine(kit.ReadPayload(e.rec.Payload).Tag) {
+					if len(o.Enq) == 0 {
+						o.TQ = e.t
+					}
+					o.Enq = append(o.Enq, readEnq([]qEnq{e})...)
+				}
+			}
+			q.mu.Unlock()
+			return o
 		}
 		for i, st := range c.Steps {
 			sleepUntil(rec, st.At)
 			switch st.Op {
 			case "proc":
 				process(i, st.Kind, kit.MkPayloads(st.Pls))
+			case "par":
+				tagsOf := func(ps []kit.Payload) map[int]bool {
+					m := map[int]bool{}
+					for _, p := range ps {
+						m[p.Tag] = true
+					}
+					return m
+				}
+				widsOf := func(ps []kit.Payload) map[int]bool {
+					m := map[int]bool{}
+					for _, p := range ps {
+						m[p.Wid] = true
+					}
+					return m
+				}
+				s.slow.Store(int64(40 * time.Millisecond))
+				before := s.inSink.Load()
+				var oa stepObs
+				doneA := make(chan struct{})
+				go func() {
+					defer close(doneA)
+					oa = processOwn(i, st.Kind, kit.MkPayloads(st.Pls), tagsOf(st.Pls), widsOf(st.Pls))
+				}()
+				for k := 0; k < 20000 && s.inSink.Load() == before; k++ {
+					select {
+					case <-doneA:
+						k = 20000
+					default:
+						time.Sleep(time.Millisecond)
+					}
+				}
+				ob := processOwn(i+100000, st.Kind2, kit.MkPayloads(st.Pls2), tagsOf(st.Pls2), widsOf(st.Pls2))
+				<-doneA
+				s.slow.Store(0)
+				c.Obs = append(c.Obs, oa, ob)
 			case "deq", "retry":
 				got, _ := q.Dequeue(st.N)
 				c.Obs = append(c.Obs, stepObs{What: "deq", T: q.deq[len(q.deq)-1].t, N: st.N, Pls: readPls(got)})
